@@ -66,7 +66,12 @@ pub fn none() -> Obs {
 pub fn some(o: Obs) -> Obs {
     L(vec![S("some"), o])
 }
+/// `Some(0)` and `None` both mean that no padding is requested
 pub fn opt_n(o: Option<u8>) -> Obs {
+    let o = o.filter(|p| *p != 0);
+    opt_n_raw(o)
+}
+fn opt_n_raw(o: Option<u8>) -> Obs {
     match o {
         None => none(),
         Some(p) => some(N(p as u128)),
@@ -697,8 +702,10 @@ impl<const PT: u8, const MIN: usize> RtcpPacketWriter for CustomBuilder<PT, MIN>
         end += writer::write_padding_unchecked(self.padding, &mut buf[end..]);
         end
     }
+    /// A third-party writer may report "no padding" as `None` or as `Some(0)`: the types with an odd number do
+    /// the latter, the others the former.  Neither requests padding.
     fn get_padding(&self) -> Option<u8> {
-        if self.padding == 0 {
+        if self.padding == 0 && PT % 2 == 0 {
             None
         } else {
             Some(self.padding)
@@ -1325,15 +1332,26 @@ macro_rules! with_writer {
 }
 
 pub fn compound_builder<'a>(ms: &'a [Member]) -> Result<CompoundBuilder<'a>, String> {
+    compound_builder_q(ms, false)
+}
+/// `query`: after every add_packet call calculate_size() and get_padding() on the compound built so far (and on
+/// nested compounds likewise) - pure calls that must not change what the finished builder announces and writes
+pub fn compound_builder_q<'a>(ms: &'a [Member], query: bool) -> Result<CompoundBuilder<'a>, String> {
     let mut cb = Compound::builder();
     for m in ms {
         cb = match m {
             Member::Custom { pt, min, count, pad, payload } => {
                 with_custom!(*pt, *min, custom_add, cb, *count, *pad, payload).ok_or("custom family".to_string())?
             }
-            Member::Compound(inner) => cb.add_packet(compound_builder(inner)?),
+            Member::Compound(inner) => cb.add_packet(compound_builder_q(inner, query)?),
             other => with_writer!(other, w => cb.add_packet(w)),
         };
+        if query {
+            let _ = guard(|| {
+                let _ = cb.calculate_size();
+                let _ = cb.get_padding();
+            });
+        }
     }
     Ok(cb)
 }
@@ -1399,6 +1417,17 @@ fn run_build(bufspec: &str, m: &Member) -> Result<Kvs, String> {
         ),
         ("writes".to_string(), obs_writes(&bufs, |b| w.write(b))),
     ];
+    if let Member::Compound(ms) = m {
+        // the same compound built with a size / padding query after every add_packet
+        let q = compound_builder_q(ms, true)?;
+        let qsize = guard(|| q.calculate_size());
+        out.push(("qsize".to_string(), wres_ref(&qsize)));
+        if let Some((len, fill)) = bufs.first() {
+            let mut buf = vec![*fill; *len];
+            let r = guard(|| q.write_into(&mut buf));
+            out.push(("qwrites".to_string(), L(vec![L(vec![wres(r), B(buf)])])));
+        }
+    }
     // round trip through an exact-size buffer prefilled like the first buffer of the case (zero if none)
     if let Ok(Ok(n)) = size {
         let fill = bufs.first().map(|b| b.1).unwrap_or(0);
